@@ -14,8 +14,10 @@ RealBigBang == <<-1, 3488, 342, 7523, 6460, 57>>
 RealSentinel == <<1, 3647, 4748, 21>>
 CONSTANTS YearStep          \* every YearStep-th year of the cycle (1 = all 400)
 In == ndJsonDeserialize(IOEnv.ZONES)
-\* cycle shifts: the generated years themselves, 1 and 2 cycles later, 1000 and 10^6 cycles later
-Shifts == {0, 1, 2, 1000, 1000000}
+\* cycle shifts: the generated years themselves, 1 and 2 cycles later, 1000 and 10^6 cycles later, and (-1, -2)
+\* the last and the last but one cycle that still reaches below time_point::max() (year 292277026596)
+Shifts == {0, 1, 2, 1000, 1000000, -1, -2}
+MaxYear == <<1, 6596, 7702, 2922>>
 VARIABLES z, dy, sh, ph, zn, tab
 \* A branching tree (zone, then year, then cycle shift) instead of a set of initial states: TLC evaluates
 \* initial states - and the successors of one state - on a single thread.  The decoded zone and the table
@@ -29,7 +31,9 @@ Next == \/ /\ ph = 0 /\ z' \in 1..Len(In) /\ ph' = 1 /\ UNCHANGED <<dy, sh>>
 Spec == Init /\ [][Next]_vars
 
 Zn == zn
-Year == (Y0(Zn) \oplus W(dy)) \oplus WMulSmall(WMulSmall(W(sh), 400), 1)
+LastSh == WFloorDiv(MaxYear \ominus (Y0(Zn) \oplus W(dy)), W(400))[1]
+ShW == IF sh >= 0 THEN W(sh) ELSE LastSh \oplus W(sh + 1)
+Year == (Y0(Zn) \oplus W(dy)) \oplus WMulSmall(ShW, 400)
 \* the instants the specification places rule changes at in that year (+-1 s), inside the int64 range
 Instants == LET C == RuleCtx(Zn, Year)
                 \* the rule instants of the years Year-1 .. Year (the context holds Year-3 .. Year+2 in time order)
